@@ -20,7 +20,7 @@
 
 """V2 parser."""
 
-from beartype.typing import Any, Union, Callable, Tuple, List, Dict
+from beartype.typing import Any, Union, Callable, Tuple, List, Dict, Optional
 import pathlib
 from typing import cast
 
@@ -275,6 +275,7 @@ class FcpV2Transformer(Transformer):
         parser_context: ParserContext,
         filesystem_proxy: IFileSystemProxy,
         error_logger: Logger = Logger({}),
+        source: Optional[str] = None,
     ) -> None:
         self.filename = pathlib.Path(filename)
         self.path = self.filename.parent
@@ -286,7 +287,10 @@ class FcpV2Transformer(Transformer):
         # visible to this file's type references, but not repeated in its result
         self.scope = v2.FcpV2()
 
-        self.source = self.filesystem_proxy.read(self.filename)
+        # an imported module was already read by the importing transformer
+        self.source = (
+            source if source is not None else self.filesystem_proxy.read(self.filename)
+        )
         self.parser_context.set_module(self.filename.name, self.source)
 
     @v_args(tree=True)  # type: ignore
@@ -512,6 +516,7 @@ class FcpV2Transformer(Transformer):
                 self.parser_context,
                 self.filesystem_proxy,
                 self.error_logger,
+                source,
             )
             fcp = transformer.transform(fcp_ast)
         except VisitError as e:
